@@ -17,6 +17,7 @@ import AdaptixProofs.Lemmas.ConvMain
 import AdaptixProofs.Lemmas.ConvRefuse
 import AdaptixProofs.Lemmas.ConvFacade
 import AdaptixProofs.Lemmas.ConvGeneric
+import AdaptixProofs.Lemmas.ConvPosition
 
 set_option linter.unusedSimpArgs false
 
@@ -978,5 +979,228 @@ example :
     parametrizeByDict (typeVarToActual [0, 1] [.ty (.model 5 0), .ty (.model 6 0)])
         (.app (.app (.cls 3) (.var 1)) (.var 0))
       = .app (.app (.cls 3) (.ty (.model 6 0))) (.ty (.model 5 0)) := by decide
+
+/-! ### a coercer is chosen per position
+
+  `mediator.provide(CoercerRequest(src, ctx, dst))` is answered per pair of *location stacks*: the key of a mapping
+  is requested at `GenericParamLoc(generic_pos=0)`, the value at `generic_pos=1`, the element of an iterable and the
+  type wrapped by `Optional` at `generic_pos=0` (`mkCoercer`, after `DictCoercerProvider` / `IterableCoercerProvider`
+  / `OptionalCoercerProvider`).  The public predicates address these positions (`P[dict].generic_arg(1, str)`,
+  `Pred.genericArg` / `Pred.pattern`), so equal pairs of types at sibling positions may be served by different
+  recipe entries. -/
+
+/-- **Recipe order decides, per location.**  If no `coercer(...)` entry before `coercer(ps, pd, f)` accepts the
+    pair of location stacks and this one does, it is the coercer used there - whatever follows. -/
+theorem first_coercer_wins (pre post : List Provider) (ps pd : Pred) (f : Nat) (src dst : LocStack)
+    (hpre : userCoercer pre src dst = none) (hs : ps src = true) (hd : pd dst = true) :
+    userCoercer (pre ++ .coercer ps pd f :: post) src dst = some f := by
+  induction pre with
+  | nil => simp [userCoercer, hs, hd]
+  | cons p pre ih =>
+    cases p <;> simp only [List.cons_append, userCoercer] at hpre ⊢ <;> try exact ih hpre
+    split at hpre
+    · cases hpre
+    · rename_i hc
+      simp only [hc]
+      exact ih hpre
+
+/-- entries declining at a location (and every provider that is not a coercer) do not influence the choice there -/
+theorem declining_coercers_invisible (pre post : List Provider) (src dst : LocStack)
+    (hpre : userCoercer pre src dst = none) :
+    userCoercer (pre ++ post) src dst = userCoercer post src dst := by
+  induction pre with
+  | nil => rfl
+  | cons p pre ih =>
+    cases p <;> simp only [List.cons_append, userCoercer] at hpre ⊢ <;> try exact ih hpre
+    split at hpre
+    · cases hpre
+    · rename_i hc
+      simp only [hc]
+      exact ih hpre
+
+/-- `generic_arg(i, q)` holds exactly on a `GenericParamLoc` with `generic_pos == i` on which `q` holds -/
+theorem generic_arg_iff (i : Nat) (q : Pred) (l : Loc) (st : LocStack) :
+    Pred.genericArg i q (l :: st) = true ↔ l.kind = .genericParam ∧ l.pos = i ∧ q (l :: st) = true := by
+  simp [Pred.genericArg, Pred.genericPos, and_assoc]
+
+/-- ... in particular never on a field location -/
+theorem generic_arg_not_field (i : Nat) (q : Pred) (l : Loc) (st : LocStack) (h : l.isField = true) :
+    Pred.genericArg i q (l :: st) = false := by
+  cases hk : l.kind <;> simp_all [Pred.genericArg, Pred.genericPos, Loc.isField]
+
+/-- `P[p].generic_arg(i, q)`: the last location is the i-th type argument satisfying `q`, the one below satisfies `p` -/
+theorem pattern_parent_generic_arg (p q : Pred) (i : Nat) (l parent : Loc) (st : LocStack) :
+    Pred.pattern [p, Pred.genericArg i q] (l :: parent :: st) =
+      (Pred.genericArg i q (l :: parent :: st) && p (parent :: st)) := by
+  simp [Pred.pattern, Pred.endCheck]
+
+
+/-- **Sibling positions are independent.**  A coercer whose *source* predicate is bound to position `i`
+    (`generic_arg(i, q)`) may stand anywhere in the recipe: the choice at a sibling position `j ≠ i` - the value
+    of a mapping for a key-bound coercer and vice versa - is the choice of the recipe without it, whatever the
+    types at the two positions are (equal pairs included). -/
+theorem sibling_bound_coercer_invisible_src (pre post : List Provider) (i j : Nat) (hij : i ≠ j) (q pd : Pred) (g : Nat)
+    (t : Ty) (st dst : LocStack) :
+    userCoercer (pre ++ .coercer (Pred.genericArg i q) pd g :: post) (gpLoc t j :: st) dst =
+      userCoercer (pre ++ post) (gpLoc t j :: st) dst := by
+  induction pre with
+  | nil => simp [userCoercer, generic_arg_sibling i j hij]
+  | cons p pre ih =>
+    cases p <;> simp only [List.cons_append, userCoercer] <;> try exact ih
+    split
+    · rfl
+    · exact ih
+
+/-- the same with the position given on the *destination* side -/
+theorem sibling_bound_coercer_invisible_dst (pre post : List Provider) (i j : Nat) (hij : i ≠ j) (ps q : Pred) (g : Nat)
+    (t : Ty) (src st : LocStack) :
+    userCoercer (pre ++ .coercer ps (Pred.genericArg i q) g :: post) src (gpLoc t j :: st) =
+      userCoercer (pre ++ post) src (gpLoc t j :: st) := by
+  induction pre with
+  | nil => simp [userCoercer, generic_arg_sibling i j hij]
+  | cons p pre ih =>
+    cases p <;> simp only [List.cons_append, userCoercer] <;> try exact ih
+    split
+    · rfl
+    · exact ih
+
+/-- the documented conversion at a location a user coercer accepts is that coercer's function applied to the value -/
+theorem user_coercer_applied (W : World) (recipe : List Provider) (params : List CtxParam)
+    (pvals : List (Name × Val)) (n : Nat) (sl dl : Loc) (srest drest : LocStack) (f : Nat)
+    (hu : userCoercer recipe (sl :: srest) (dl :: drest) = some f) (v : Val) :
+    coerceSpec W recipe params pvals (n + 1) (sl :: srest) (dl :: drest) v = some (.app f [v] []) := by
+  simp only [coerceSpec, hu]
+
+/-- **Specification side.**  A mapping is converted entry by entry: the key at the key location
+    (`GenericParamLoc(pos=0)` appended to both stacks), the value at the value location (`pos=1`). -/
+theorem dict_spec_by_position (W : World) (recipe : List Provider) (params : List CtxParam)
+    (pvals : List (Name × Val)) (n : Nat) (sl dl : Loc) (srest drest : LocStack) (ka va kb vb : Ty)
+    (hs : sl.ty = .dict ka va) (hd : dl.ty = .dict kb vb)
+    (hu : userCoercer recipe (sl :: srest) (dl :: drest) = none)
+    (hsh : W.inShape dl.ty = none ∨ W.outShape sl.ty = none) (kvs : List (Val × Val)) :
+    coerceSpec W recipe params pvals (n + 1) (sl :: srest) (dl :: drest) (.dict kvs) =
+      (kvs.mapM (m := Option) (fun (kv : Val × Val) =>
+        match coerceSpec W recipe params pvals n (gpLoc ka 0 :: sl :: srest) (gpLoc kb 0 :: dl :: drest) kv.1,
+              coerceSpec W recipe params pvals n (gpLoc va 1 :: sl :: srest) (gpLoc vb 1 :: dl :: drest) kv.2 with
+        | some k, some x => some (k, x)
+        | _, _ => none)).map Val.dict := by
+  rw [hs, hd] at hsh
+  simp only [coerceSpec, hu, hs, hd]
+  have fin : ∀ (f g : Val × Val → Option (Val × Val)), (∀ kv, f kv = g kv) →
+      Option.map Val.dict (kvs.mapM f) = Option.map Val.dict (kvs.mapM g) :=
+    fun f g hfg => by rw [mapM_congr f g kvs (fun kv _ => hfg kv)]
+  rcases hsh with h | h
+  · simp only [h]
+    apply fin
+    intro kv
+    split <;> split <;> simp_all
+  · cases hin : W.inShape (.dict kb vb) <;> simp only [h, hin] <;> apply fin <;> intro kv <;> split <;> split <;> simp_all
+
+/-- **Generated code.**  Whatever closure the generator returns for a mapping pair, it is `dict_coercer` around the
+    coercer produced for the **key location** and the coercer produced for the **value location** - two separate
+    requests, also when keys and values have the same pair of types (`Dict[str, str] -> Dict[int, int]`). -/
+theorem dict_coercers_by_position (W : World) (recipe : List Provider) (params : List CtxParam)
+    (n : Nat) (sl dl : Loc) (srest drest : LocStack) (ka va kb vb : Ty)
+    (hs : sl.ty = .dict ka va) (hd : dl.ty = .dict kb vb)
+    (hu : userCoercer recipe (sl :: srest) (dl :: drest) = none)
+    (hsh : W.inShape dl.ty = none ∨ W.outShape sl.ty = none) (c : Coercer)
+    (h : mkCoercer W recipe params (n + 1) (sl :: srest) (dl :: drest) = some c) :
+    ∃ k v, c = .dict k v ∧
+      mkCoercer W recipe params n (gpLoc ka 0 :: sl :: srest) (gpLoc kb 0 :: dl :: drest) = some k ∧
+      mkCoercer W recipe params n (gpLoc va 1 :: sl :: srest) (gpLoc vb 1 :: dl :: drest) = some v := by
+  rw [hs, hd] at hsh
+  simp only [mkCoercer, hu, hs, hd] at h
+  cases hk : mkCoercer W recipe params n (gpLoc ka 0 :: sl :: srest) (gpLoc kb 0 :: dl :: drest) with
+  | none =>
+    rcases hsh with hh | hh
+    · simp [hh, hk] at h
+    · cases hin : W.inShape (.dict kb vb) <;> simp [hh, hin, hk] at h
+  | some k =>
+    cases hv : mkCoercer W recipe params n (gpLoc va 1 :: sl :: srest) (gpLoc vb 1 :: dl :: drest) with
+    | none =>
+      rcases hsh with hh | hh
+      · simp [hh, hk, hv] at h
+      · cases hin : W.inShape (.dict kb vb) <;> simp [hh, hin, hk, hv] at h
+    | some v =>
+      refine ⟨k, v, ?_, rfl, rfl⟩
+      rcases hsh with hh | hh
+      · simp [hh, hk, hv] at h
+        exact h.symm
+      · cases hin : W.inShape (.dict kb vb) <;> simp [hh, hin, hk, hv] at h <;> exact h.symm
+
+/-- **Each position is served by its own first matching recipe entry.**  If the first coercer of the recipe
+    accepting the key location is `fk` and the first accepting the value location is `fv`, the produced converter
+    maps `{k: x, ...}` to `{fk(k): fv(x), ...}` - no hypothesis relates the key types to the value types. -/
+theorem dict_entries_by_own_position (W : World) (hW : W.WF) (recipe : List Provider) (params : List CtxParam)
+    (ctxVals : List Val) (hlen : ctxVals.length = params.length) (hnd : (params.map (·.name)).Nodup)
+    (n : Nat) (sl dl : Loc) (srest drest : LocStack) (ka va kb vb : Ty)
+    (hs : sl.ty = .dict ka va) (hd : dl.ty = .dict kb vb)
+    (hu : userCoercer recipe (sl :: srest) (dl :: drest) = none)
+    (hsh : W.inShape dl.ty = none ∨ W.outShape sl.ty = none) (c : Coercer)
+    (h : mkCoercer W recipe params (n + 2) (sl :: srest) (dl :: drest) = some c)
+    (fk fv : Nat)
+    (hk : userCoercer recipe (gpLoc ka 0 :: sl :: srest) (gpLoc kb 0 :: dl :: drest) = some fk)
+    (hv : userCoercer recipe (gpLoc va 1 :: sl :: srest) (gpLoc vb 1 :: dl :: drest) = some fv)
+    (kvs : List (Val × Val)) :
+    applyCoercer c (.dict kvs) (packCtx ctxVals) =
+      some (.dict (kvs.map (fun kv => (Val.app fk [kv.1] [], Val.app fv [kv.2] [])))) := by
+  rw [convert_eq_spec W hW recipe params ctxVals hlen hnd (n + 2) (sl :: srest) (dl :: drest) c h,
+    dict_spec_by_position W recipe params _ (n + 1) sl dl srest drest ka va kb vb hs hd hu hsh kvs]
+  rw [mapM_some_of_forall _ (fun kv => (Val.app fk [kv.1] [], Val.app fv [kv.2] []))]
+  · rfl
+  · intro kv _
+    rw [user_coercer_applied W recipe params _ n _ _ _ _ fk hk, user_coercer_applied W recipe params _ n _ _ _ _ fv hv]
+
+
+section PositionExamples
+
+def exPosWorld : World where
+  outShape _ := none
+  inShape _ := none
+  asIs s d := s == d
+def exDictSig : Signature := { params := [⟨"src", .posOnly, .dict exStr exStr, none⟩], ret := .dict exInt exInt }
+/-- `coercer(P[dict].generic_arg(0, str), int, f₁)` -/
+def exKeyBound : Provider :=
+  .coercer (Pred.pattern [Pred.origin .dict, Pred.genericArg 0 (Pred.origin exStr.origin)]) (Pred.origin exInt.origin) 1
+/-- `coercer(str, P[dict].generic_arg(1, int), f₃)`: the position given on the destination side -/
+def exValueBound : Provider :=
+  .coercer (Pred.origin exStr.origin) (Pred.pattern [Pred.origin .dict, Pred.genericArg 1 (Pred.origin exInt.origin)]) 3
+/-- `coercer(str, int, f₂)` -/
+def exGeneral : Provider := .coercer (Pred.origin exStr.origin) (Pred.origin exInt.origin) 2
+def exK : Val := .atom "str" "'1'"
+def exV : Val := .atom "str" "'2'"
+
+/-- `Dict[str, str] -> Dict[int, int]`: keys by the key-bound coercer, values by the general one behind it -/
+example : (provideConverter exPosWorld [exKeyBound, exGeneral] 5 exDictSig).map (fun c => c.call [.dict [(exK, exV)]] []) =
+    some (some (.dict [(.app 1 [exK] [], .app 2 [exV] [])])) := by rfl
+/-- a value-bound coercer before the general one: keys by the general one, values by the bound one -/
+example : (provideConverter exPosWorld [exValueBound, exGeneral] 5 exDictSig).map (fun c => c.call [.dict [(exK, exV)]] []) =
+    some (some (.dict [(.app 2 [exK] [], .app 3 [exV] [])])) := by rfl
+/-- both bound coercers, no general one: each position finds its own -/
+example : (provideConverter exPosWorld [exValueBound, exKeyBound] 5 exDictSig).map (fun c => c.call [.dict [(exK, exV)]] []) =
+    some (some (.dict [(.app 1 [exK] [], .app 3 [exV] [])])) := by rfl
+/-- recipe order: the general coercer first shadows the bound ones at both positions -/
+example : (provideConverter exPosWorld [exGeneral, exKeyBound, exValueBound] 5 exDictSig).map
+    (fun c => c.call [.dict [(exK, exV)]] []) = some (some (.dict [(.app 2 [exK] [], .app 2 [exV] [])])) := by rfl
+/-- only the key-bound coercer: nothing serves `str -> int` at the value position, no converter -/
+example : (provideConverter exPosWorld [exKeyBound] 5 exDictSig).isNone = true := by rfl
+
+/-- **Why the value coercer must be requested at its own location.**  Reusing the coercer found for the key
+    position for the values because the two pairs of types coincide (`Dict[str, str] -> Dict[int, int]`) is not
+    the documented conversion: with `[coercer(P[dict].generic_arg(0, str), int, f₁), coercer(str, int, f₂)]` the
+    key coercer is `f₁`, and the dict coercer built from it twice sends the value through `f₁`, the
+    specification through `f₂`. -/
+theorem key_coercer_reused_for_values_differs :
+    mkCoercer exPosWorld [exKeyBound, exGeneral] [] 4
+        [gpLoc exStr 0, { kind := .field, ty := .dict exStr exStr, fieldId := "src" }]
+        [gpLoc exInt 0, { kind := .typeHint, ty := .dict exInt exInt }] = some (.leaf 1) ∧
+    applyCoercer (.dict (.leaf 1) (.leaf 1)) (.dict [(exK, exV)]) .none ≠
+      convertSpec exPosWorld [exKeyBound, exGeneral] 5 exDictSig [.dict [(exK, exV)]] := by
+  refine ⟨rfl, fun h => ?_⟩
+  have h2 : (some (Val.dict [(.app 1 [exK] [], .app 1 [exV] [])]) : Option Val) =
+      some (.dict [(.app 1 [exK] [], .app 2 [exV] [])]) := h
+  simp at h2
+
+end PositionExamples
 
 end Adaptix.Conv13.C13
